@@ -1,29 +1,45 @@
 (** C12 -- Wick's theorem: quadratic models give the free propagator and a vanishing vertex.
-    Statements only; proofs in PV.WickProofs, PV.WickCase*, PV.WickMain, PV.WickC.
+    Statements only; proofs in PV.WickProofs, PV.WickCase*, PV.WickMain, PV.WickC (two modes, round 1) and
+    PV.WickAllM, PV.WickAllMChi, PV.WickAllMMain, PV.WickAllMC, PV.WickAllMLin (every number of modes, round 2).
 
-    FULL STATEMENT of the property (NOT proved in this generality):
+    FULL STATEMENT of the property:
       for every M, every Hermitian M x M matrix h (real symmetric in the real build), every beta > 0:
         with H = sum_ij h_ij c^+_i c_j, (E, U) an eigen-decomposition of H on the Fock space,
         w = weights beta E, C_i = U^+ c_i U:
           forall i j z,          gf E w C_i C^+_j z = ((z - h)^{-1})_ij                      (1)
           forall i j k l n1 n2 n3, Vertex4::value = chi - chi0 = 0                          (2)
-    PROVED here ("_partial"): (1) and (2) for DIAGONAL h = diag(eps_1..eps_M):
-      (1) M = 1, 2, 3, all eps, all Boltzmann factors, all z with z <> eps_i  -- as identities of rational
-          functions over an arbitrary field (x_i = e^{-beta eps_i} are free field elements);
-      (2) M = 2: all sixteen index quadruples, all frequency triples and all levels, in every resonance pattern
-          (z1+z2 = 0, z1 = z3, z2 = z3 and combinations) and every level pattern (e1 = e2, e1 + e2 = 0, both,
-          neither) -- over an arbitrary field at every "regular" point, and, instantiated at Coquelicot's C,
-          for ALL real e1 e2, ALL beta > 0 and ALL triples of fermionic Matsubara numbers.
-    MISSING: the step from diagonal h to arbitrary Hermitian h (a unitary change of the single-particle basis
-    d_a = sum_i V_ai c_i maps H to diagonal form; G and chi are multilinear in the operators, so (1), (2)
-    follow from the diagonal case) and M > 2 for (2) / M > 3 for (1).  That step is covered numerically by
-    checks/C12.py (random real symmetric / complex Hermitian h on up to 5 modes, degenerate, zero,
-    block-diagonal), not by proof.
+
+    PROVED, part A (second half of this file, names without "_partial"): DIAGONAL h = diag(eps_1..eps_M),
+      EVERY number of modes M (induction over the modes; no enumeration of Fock states):
+      (1) [free_gf_diag_allM]            G_ij(z) = delta_ij/(z - eps_i), all M, all i j < M, as an identity of
+                                         rational functions over an arbitrary field;
+      (2) [free_chi_is_chi0_diag_allM], [free_chi_is_documented_chi0_diag_allM], [free_vertex_zero_diag_allM]
+                                         chi = documented chi0 and the GENERATED Vertex4::value = 0 for all M >= 1,
+                                         ALL index quadruples i j k l < M, all frequency triples in every resonance
+                                         pattern and all levels (degenerate, zero, opposite) at every regular point;
+          [free_gf_diag_allM_C], [free_vertex_zero_diag_allM_C], [regular_points_exist_allM]
+                                         the same over Coquelicot's C for ALL real levels, ALL beta > 0, ALL Matsubara
+                                         numbers, without side conditions.
+    PROVED, part B: ARBITRARY h (any square matrix over a field), in matrix form (mathcomp):
+      [resolvent_of_rotated_diagonal]    h = V diag(d) V^-1  =>  (z - h)^-1 = V diag(1/(z - d)) V^-1;
+      [lehmann_is_resolvent_any_h]       for operator matrices C_i, CX_i with the canonical anticommutation relations
+                                         in a basis where H = sum h_kl CX_k C_l is diagonal (the eigenbasis), normalised
+                                         weights and z off the poles, the Lehmann double sum that EDSpec.gf computes
+                                         is the matrix inverse of (z - h): statement (1) for every h, any M.
+    PROVED earlier ("_partial", first half of this file): (1) M = 1, 2, 3 and (2) M = 2 by enumeration; superseded by
+      part A but kept (the M = 2 theorem is the base case of the induction).
+    STILL MISSING (decided numerically by checks/C12.py on random real symmetric / complex Hermitian h on up to 5
+    modes, degenerate, zero, block-diagonal):
+      - the change of representation from the mathcomp matrices of part B to the list-of-rows matrices of
+        PV.EDSpec together with an eigen-decomposition certificate that holds EXACTLY (in floating point it holds
+        up to the certified residuals), so (1) for non-diagonal h is not a theorem about PV.EDSpec.gf itself;
+      - (2) for non-diagonal h (multilinearity of chi under the single-particle rotation, or the two-particle
+        equation of motion).
 
     The statements are about the EXECUTABLE SPECIFICATION PV.EDSpec (gf, chi, phi, op_matrix) instantiated at
     [FNum F] for a field setting F whose threshold tests are exact zero tests (PV.Wick), about the
     GENERATED Vertex4::value (PVgen.Gen_Vertex4) and the documented chi0 (PV.Matsubara4Spec.chi0).
-    The generic statements need no axioms; the instance over C uses the classical real axioms. *)
+    The generic statements need no axioms; the instances over C use the classical real axioms. *)
 Require Import Reals List ZArith Bool Arith.
 From Coquelicot Require Import Coquelicot.
 From PV Require Import Outcome Fock Poly EDSpec Matsubara4Spec Wick WickProofs WickMain WickC.
@@ -119,3 +135,168 @@ Theorem weights_is_gibbs_M2 : forall (beta e1 e2 : R),
   gibbs CSetting [RtoC (exp (- beta * e1)); RtoC (exp (- beta * e2))].
 Proof. exact WickC.weights_is_gibbs_2. Qed.
 Print Assumptions weights_is_gibbs_M2.
+
+(** ================================================================================================
+    EVERY NUMBER OF MODES (diagonal h): proofs by induction over the modes, PV.WickAllM* *)
+From PV Require Import WickAllM WickAllMChi WickAllMMain WickAllMC WickAllMQ.
+
+(** (1) the free propagator for every M.  [energies F eps], [gibbs F xs] are the tables E_s = sum_{i in s} eps_i,
+    w_s = prod_{i in s} x_i / prod_i (1 + x_i) over the 2^M Fock states; [Cm F M i], [CXm F M j] the specification's
+    Jordan-Wigner matrices of c_i, c^+_j on M modes. *)
+Theorem free_gf_diag_allM : forall (F : fsetting) (eps xs : list (fK F)) (z : fK F) (i j : nat),
+  length xs = length eps -> (i < length eps)%nat -> (j < length eps)%nat ->
+  (forall x, In x xs -> fadd F (f1 F) x <> f0 F) -> (i = j -> fsub F z (nth i eps (f0 F)) <> f0 F) ->
+  gf (fK F) (FNum F) (energies F eps) (gibbs F xs) (Cm F (length eps) i) (CXm F (length eps) j) z = gfree F eps i j z.
+Proof. exact WickAllM.free_gf_diag_allM. Qed.
+Print Assumptions free_gf_diag_allM.
+
+(** (2) every M >= 1, every index quadruple: chi equals the Wick part at every regular point
+    ([regularM]: 1 + x_p <> 0 for all modes and Wick.regular for every pair of modes) *)
+Theorem free_chi_is_chi0_diag_allM : forall (F : fsetting) (eps xs : list (fK F)) (beta z1 z2 z3 : fK F) (i j k l : nat),
+  (1 <= length eps)%nat -> regularM F eps xs z1 z2 z3 ->
+  (i < length eps)%nat -> (j < length eps)%nat -> (k < length eps)%nat -> (l < length eps)%nat ->
+  chi (fK F) (FNum F) beta (ftol F) (energies F eps) (gibbs F xs)
+      (Cm F (length eps) i) (Cm F (length eps) j) (CXm F (length eps) k) (CXm F (length eps) l) z1 z2 z3 =
+  chi0_free F eps beta i j k l z1 z2 z3.
+Proof. exact WickAllMMain.free_chi_is_chi0_allM. Qed.
+Print Assumptions free_chi_is_chi0_diag_allM.
+
+(** two ingredients of independent interest: a quadruple in which some mode q occurs an odd number of times
+    (i.e. every quadruple that does not conserve the mode index) has chi = 0 identically ... *)
+Theorem chi_nonconserving_zero_allM : forall (F : fsetting) (eps xs : list (fK F)) (i j k l : nat) (beta tol z1 z2 z3 : fK F) (q : nat),
+  (i < length eps)%nat -> (j < length eps)%nat -> (k < length eps)%nat -> (l < length eps)%nat ->
+  xor4 i j k l q = true ->
+  chi (fK F) (FNum F) beta tol (energies F eps) (gibbs F xs)
+      (Cm F (length eps) i) (Cm F (length eps) j) (CXm F (length eps) k) (CXm F (length eps) l) z1 z2 z3 = f0 F.
+Proof. exact WickAllMChi.chi_odd_zero. Qed.
+Print Assumptions chi_nonconserving_zero_allM.
+
+(** ... and a mode p that none of the four operators touches factors out of chi exactly
+    ([del p] removes the p-th entry, [dn p i] is the index of mode i once mode p is gone) *)
+Theorem chi_spectator_factors_out : forall (F : fsetting) (eps xs : list (fK F)) (p i j k l : nat) (beta tol z1 z2 z3 : fK F),
+  length xs = length eps -> (p < length eps)%nat ->
+  (i < length eps)%nat -> (j < length eps)%nat -> (k < length eps)%nat -> (l < length eps)%nat ->
+  i <> p -> j <> p -> k <> p -> l <> p -> paired i j k l -> (forall x, In x xs -> fadd F (f1 F) x <> f0 F) ->
+  chi (fK F) (FNum F) beta tol (energies F eps) (gibbs F xs)
+      (Cm F (length eps) i) (Cm F (length eps) j) (CXm F (length eps) k) (CXm F (length eps) l) z1 z2 z3 =
+  chi (fK F) (FNum F) beta tol (energies F (del p eps)) (gibbs F (del p xs))
+      (Cm F (length (del p eps)) (dn p i)) (Cm F (length (del p eps)) (dn p j))
+      (CXm F (length (del p eps)) (dn p k)) (CXm F (length (del p eps)) (dn p l)) z1 z2 z3.
+Proof. exact WickAllMChi.chi_remove_spectator. Qed.
+Print Assumptions chi_spectator_factors_out.
+
+(** chi is the documented chi0 built from the specification's own G, and the generated Vertex4::value vanishes *)
+Theorem free_chi_is_documented_chi0_diag_allM :
+  forall (F : fsetting) (zf : Z -> fK F), (forall n m, fsub F (zf n) (zf m) = f0 F -> n = m) ->
+  forall (beta : fK F) (eps xs : list (fK F)) (i j k l : nat) (n1 n2 n3 : Z), (1 <= length eps)%nat ->
+  (i < length eps)%nat -> (j < length eps)%nat -> (k < length eps)%nat -> (l < length eps)%nat ->
+  regularM F eps xs (zf n1) (zf n2) (zf n3) ->
+  Chi4M F zf beta eps xs i j k l n1 n2 n3 =
+  chi0 (fK F) (f0 F) (f1 F) (fmul F) (fsub F) beta
+       (GmnM F zf eps xs i k) (GmnM F zf eps xs j l) (GmnM F zf eps xs i l) (GmnM F zf eps xs j k) n1 n2 n3.
+Proof. exact WickAllMMain.free_chi_is_documented_chi0_allM. Qed.
+Print Assumptions free_chi_is_documented_chi0_diag_allM.
+
+Theorem free_vertex_zero_diag_allM :
+  forall (F : fsetting) (zf : Z -> fK F), (forall n m, fsub F (zf n) (zf m) = f0 F -> n = m) ->
+  forall (beta : fK F) (eps xs : list (fK F)) (i j k l : nat) (n1 n2 n3 : Z), (1 <= length eps)%nat ->
+  (i < length eps)%nat -> (j < length eps)%nat -> (k < length eps)%nat -> (l < length eps)%nat ->
+  regularM F eps xs (zf n1) (zf n2) (zf n3) ->
+  vertex_value (fK F) (fadd F) (fsub F) (fmul F) beta (Chi4M F zf beta eps xs i j k l)
+     (GmnM F zf eps xs i k) (GmnM F zf eps xs j l) (GmnM F zf eps xs i l) (GmnM F zf eps xs j k) n1 n2 n3 = f0 F.
+Proof. exact WickAllMMain.free_vertex_zero_diag_allM. Qed.
+Print Assumptions free_vertex_zero_diag_allM.
+
+(** The hypotheses are satisfiable: over C EVERY physical point is regular, for any list of real levels. *)
+Theorem regular_points_exist_allM : forall (es : list R) (beta : R) (n1 n2 n3 : Z), (0 < beta)%R ->
+  regularM CSetting (levelsC es) (boltzC beta es) (zfC beta n1) (zfC beta n2) (zfC beta n3).
+Proof. exact WickAllMC.regularM_C. Qed.
+Print Assumptions regular_points_exist_allM.
+
+(** Over the complex numbers, without side conditions: any number of real levels (degenerate, zero, opposite),
+    all beta > 0, all index pairs / quadruples, all Matsubara numbers.
+    [levelsC es] = map RtoC es, [boltzC beta es] = map (fun e => RtoC (exp (- beta * e))) es. *)
+Theorem free_gf_diag_allM_C : forall (es : list R) (beta : R) (i j : nat) (n : Z),
+  (0 < beta)%R -> (i < length es)%nat -> (j < length es)%nat ->
+  GmnM CSetting (zfC beta) (levelsC es) (boltzC beta es) i j n =
+  if Nat.eqb i j then Cdiv (RtoC 1) (Cminus (zfC beta n) (RtoC (nth i es 0%R))) else RtoC 0.
+Proof. exact WickAllMC.free_gf_diag_allM_C. Qed.
+Print Assumptions free_gf_diag_allM_C.
+
+Theorem free_vertex_zero_diag_allM_C : forall (es : list R) (beta : R) (i j k l : nat) (n1 n2 n3 : Z),
+  (0 < beta)%R -> (i < length es)%nat -> (j < length es)%nat -> (k < length es)%nat -> (l < length es)%nat ->
+  let eps := levelsC es in let xs := boltzC beta es in
+  vertex_value C Cplus Cminus Cmult (RtoC beta)
+     (Chi4M CSetting (zfC beta) (RtoC beta) eps xs i j k l)
+     (GmnM CSetting (zfC beta) eps xs i k) (GmnM CSetting (zfC beta) eps xs j l)
+     (GmnM CSetting (zfC beta) eps xs i l) (GmnM CSetting (zfC beta) eps xs j k) n1 n2 n3 = RtoC 0.
+Proof. exact WickAllMC.free_vertex_zero_diag_allM_C. Qed.
+Print Assumptions free_vertex_zero_diag_allM_C.
+
+(** Non-vacuity by computation (vm_compute on exact rationals, independent of the theorems; PV.WickAllMQ):
+    4 modes with levels 1/2, -1/3, 1/2, 0 (16 Fock states): G for all 16 index pairs and chi for ALL 256 index
+    quadruples agree with the closed forms at a generic frequency triple and at z1 = z3, z2 = z3, z1 + z2 = 0;
+    5 modes (32 Fock states): G for all 25 index pairs. *)
+Example computed_M4_G_is_closed_form :
+  forallb (fun i => forallb (fun j => same (G4 i j (q 7 5)) (gfree QcSetting eps4 i j (q 7 5))) idx4) idx4 = true.
+Proof. exact WickAllMQ.G4_closed_form. Qed.
+Example computed_M4_chi_is_chi0_at_z1_eq_z3 : all_quadruples4 (q 3 1) (q 7 5) (q 11 7) (q 7 5) = true.
+Proof. exact WickAllMQ.chi4_z1_eq_z3. Qed.
+Example computed_M4_chi_is_chi0_generic : all_quadruples4 (q 3 1) (q 7 5) (q 11 7) (q 13 9) = true.
+Proof. exact WickAllMQ.chi4_generic. Qed.
+
+(** ================================================================================================
+    ARBITRARY single-particle matrix h (mathcomp matrices; PV.WickAllMLin).  Nothing above this line is affected
+    by the imports below. *)
+From mathcomp Require Import all_ssreflect all_algebra.
+From PV Require Import WickAllMLin.
+Import GRing.Theory.
+Local Open Scope ring_scope.
+
+(** h = V diag(d) W with V W = 1 (W = V^+ for unitary V): (z - h)^-1 = V diag(1/(z - d_a)) W, entrywise
+    sum_a V_ia W_aj / (z - d_a) -- the propagator of h is the rotated propagator of its diagonal form *)
+Theorem resolvent_of_rotated_diagonal : forall (F : fieldType) (M : nat) (V W : 'M[F]_M) (d : 'rV[F]_M) (z : F),
+  V *m W = 1%:M -> (forall a, z - d 0 a != 0) ->
+  let h := V *m diag_mx d *m W in
+  [/\ z%:M - h \in unitmx,
+      invmx (z%:M - h) = V *m diag_mx (\row_a (z - d 0 a)^-1) *m W &
+      forall i j, invmx (z%:M - h) i j = \sum_a V i a * W a j / (z - d 0 a)].
+Proof.
+move=> F M V W d z VW zd h.
+have [U E] := WickAllMLin.resolvent_similar_inv VW zd.
+by split=> // i j; rewrite E; exact: WickAllMLin.resolvent_entry.
+Qed.
+Print Assumptions resolvent_of_rotated_diagonal.
+
+(** statement (1) for EVERY h: operators with the canonical anticommutation relations, H = sum h_kl c^+_k c_l diagonal
+    with eigenvalues E (i.e. everything expressed in an eigenbasis of H), normalised weights, z off the poles:
+    the Lehmann double sum of EDSpec.gf, G_ij = sum_nm (C_i)_nm (CX_j)_mn (w_n + w_m)/(z - (E_m - E_n)), is the inverse
+    of z - h *)
+Theorem lehmann_is_resolvent_any_h :
+  forall (F : fieldType) (M N : nat) (C CX : 'I_M -> 'M[F]_N) (h : 'M[F]_M) (E w : 'rV[F]_N) (z : F),
+  (forall i j, C i *m CX j + CX j *m C i = ((i == j)%:R)%:M) ->
+  (forall i j, C i *m C j + C j *m C i = 0) ->
+  \sum_k \sum_l h k l *: (CX k *m C l) = diag_mx E ->
+  \sum_n w 0 n = 1 ->
+  (forall n m, z - (E 0 m - E 0 n) != 0) ->
+  let G : 'M[F]_M := \matrix_(i, j) \sum_n \sum_m C i n m * CX j m n * (w 0 n + w 0 m) / (z - (E 0 m - E 0 n)) in
+  [/\ (z%:M - h) *m G = 1%:M, z%:M - h \in unitmx & G = invmx (z%:M - h)].
+Proof.
+move=> F M N C CX h E w z car cc Hd wn znz G.
+exact: (WickAllMLin.lehmann_is_resolvent car cc Hd wn znz).
+Qed.
+Print Assumptions lehmann_is_resolvent_any_h.
+
+(** the hypotheses are satisfiable (one mode, c = |0><1|, H = e n, any normalised weights, z off 0, e, -e) *)
+Example lehmann_hypotheses_satisfiable : forall (F : fieldType) (e w0 z : F),
+  z != 0 -> z - e != 0 -> z + e != 0 ->
+  let C := fun _ : 'I_1 => c1 F in let CX := fun _ : 'I_1 => cx1 F in
+  let h : 'M[F]_1 := e%:M in
+  let E : 'rV[F]_2 := \row_n (if n == 0 then 0 else e) in
+  let w : 'rV[F]_2 := \row_n (if n == 0 then w0 else 1 - w0) in
+  [/\ forall i j, C i *m CX j + CX j *m C i = ((i == j)%:R)%:M,
+      forall i j, C i *m C j + C j *m C i = 0,
+      \sum_k \sum_l h k l *: (CX k *m C l) = diag_mx E,
+      \sum_n w 0 n = 1 &
+      forall n m, z - (E 0 m - E 0 n) != 0].
+Proof. exact: WickAllMLin.eom_hypotheses_satisfiable. Qed.
